@@ -464,7 +464,7 @@ class Canon:
         if k == "cases":
             return f_or([self._conj_exists(list(pc) + [x], ln) for pc, x in t[1]])
         if k == "exists":
-            body = f_and([self._f(x, ln) for x in t[2]])
+            body = self._conj_exists(list(t[2]), ln)
             if body == ("false",):
                 return ("false",)
             return ("exists", self._loop_iter(t[1], ln) + self._lsuffix(t[1], ln), body)
